@@ -40,7 +40,7 @@ CORE_LITERALS = ['a', 'ab', '.', '\\', '$', 'a$', '^', '[', ']', '(', ')', '(a)'
                  '{2}', 'a{1,2}', '-', '/', '\n', "'", '"', 'é', '\\b', '\\A', '(?:', '(?=b)', '[a]', '[^a]',
                  '\\1', '1', ' ', '[(', 'US$', 'a[b', 'x(']
 
-SMALL_LITERALS = ['a', 'ab', '$', '[', '(', 'a|b', '?', '\\', '1']
+SMALL_LITERALS = ['a', 'ab', '$', '[', '(', ')', 'a|b', '?', '\\', '1']
 
 CLASS_ATOMS = ['AnyDigit()', 'Any()', "AnyBetween('a', 'c')", "AnyFrom('+', '-')", "AnyFrom('|', 'x')",
                "AnyButFrom('(', ')')", 'AnyLetter()', 'AnyWordChar(is_global=True)', 'AnyButWhitespace()',
